@@ -242,6 +242,10 @@ def derive(obj, how, allow):
     if how.startswith("zone:"):
         # the same instants given as timezone-aware datetimes of another zone, at every depth
         return rezone(obj, zone_of(how[5:]), allow)
+    if how.startswith("micro:"):
+        # every timestamp, at every depth, given as a plain datetime OBJECT (UTC) with that microsecond part
+        import datetime as dt
+        return rezone(obj, dt.timezone.utc, allow, micro=int(how[6:]))
     raise ValueError(how)
 
 
@@ -255,20 +259,20 @@ def zone_of(name):
     return pytz.timezone(name)
 
 
-def rezone(v, tz, allow):
+def rezone(v, tz, allow, micro=None):
     import datetime as dt
     if isinstance(v, dt.datetime):
         aware = v if v.tzinfo is not None else v.replace(tzinfo=dt.timezone.utc)
         moved = aware.astimezone(tz)
         # a plain aware datetime of that zone: the property applies its own precision again
-        return dt.datetime(moved.year, moved.month, moved.day, moved.hour, moved.minute, moved.second, moved.microsecond,
-                           tzinfo=moved.tzinfo, fold=moved.fold)
+        return dt.datetime(moved.year, moved.month, moved.day, moved.hour, moved.minute, moved.second,
+                           moved.microsecond if micro is None else micro, tzinfo=moved.tzinfo, fold=moved.fold)
     if isinstance(v, _STIXBase):
-        return type(v)(allow_custom=allow or v.has_custom, **{k: rezone(x, tz, allow) for k, x in v.items()})
+        return type(v)(allow_custom=allow or v.has_custom, **{k: rezone(x, tz, allow, micro) for k, x in v.items()})
     if isinstance(v, dict):
-        return {k: rezone(x, tz, allow) for k, x in v.items()}
+        return {k: rezone(x, tz, allow, micro) for k, x in v.items()}
     if isinstance(v, (list, tuple)):
-        return [rezone(x, tz, allow) for x in v]
+        return [rezone(x, tz, allow, micro) for x in v]
     return v
 
 
